@@ -311,6 +311,56 @@ def race_replays(c, hunted):
                 c.notes.append("race %s: not reproduced on the real code (%s)" % (name, "; ".join((r.get("notes") or [])[:1])[:300]))
 
 
+def recv_check(c):
+    """p2p side: the response receivers (ChunkRecv.tla), every transition replayed on the real receivers"""
+    for kind in ("blocks", "hashes"):
+        cfg = "MC_ChunkRecv_%s.cfg" % kind
+        res = vlib.tlc(SPEC_DIR, "MC_ChunkRecv", cfg, os.path.join(c.work, "recv"), workers=1, timeout=900)
+        c.require_ok(res, "response receiver design + transition enumeration (%s)" % kind)
+        trs = vlib.parse_transitions(res.out)
+        if len(trs) < 1000:
+            raise vlib.Infra("too few receiver transitions: %d" % len(trs))
+        key = lambda st: json.dumps(st)
+        parent, init = {}, None
+        out = {}
+        for i, (s, a, d) in enumerate(trs):
+            out.setdefault(key(s), []).append(i)
+        init = key(["waiting", [], [], 0])
+        parent[init] = None
+        dq = deque([init])
+        while dq:
+            s = dq.popleft()
+            for i in out.get(s, []):
+                d = key(trs[i][2])
+                if d not in parent:
+                    parent[d] = i
+                    dq.append(d)
+
+        def conv(st):
+            return dict(status=st[0], got=st[1], sent=[(m[1] if m[0] == "ok" else []) for m in st[2]])
+        paths = []
+        for i, (s, a, d) in enumerate(trs):
+            p, cur = [i], key(s)
+            if cur not in parent:
+                raise vlib.Infra("receiver transition not reachable")
+            while parent[cur] is not None:
+                p.append(parent[cur])
+                cur = key(trs[parent[cur]][0])
+            p.reverse()
+            paths.append(dict(steps=[dict(part=dict(items=trs[j][1]["items"], hasNext=trs[j][1]["hasNext"], ok=trs[j][1]["ok"]),
+                                          exp=conv(trs[j][2])) for j in p]))
+        inpath = os.path.join(c.work, "recv_in_%s.json" % kind)
+        json.dump(dict(kind=kind, n=3, paths=paths), open(inpath, "w"))
+        outpath = os.path.join(c.work, "recv_out_%s.json" % kind)
+        rc, output = vlib.go_test("./p2p/", "^TestVerifSyncRecv$", env={"VERIF_IN": inpath, "VERIF_OUT": outpath,
+                                  "VERIF_SEED": c.seed, "VERIF_TIER": c.tier}, timeout=1500)
+        r = c.absorb_go(outpath, output)
+        if rc != 0 and not r.get("violations"):
+            raise vlib.Infra("receiver harness failed:\n" + output[-3000:])
+        if (r.get("extra") or {}).get("divergences") and not r.get("violations"):
+            raise vlib.Infra("the real %s receiver left the model:\n%s" % (kind, "\n".join((r.get("notes") or [])[:3])[:2000]))
+
+
 def graph_behaviours(c, cfg, rng, tag, min_trs):
     gen = vlib.tlc(SPEC_DIR, "MC_Syncer", cfg, os.path.join(c.work, "gen_" + tag), workers=1, timeout=2400)
     c.require_ok(gen, "Syncer transition enumeration (%s)" % cfg)
@@ -374,6 +424,10 @@ def run(c):
         if not c.violations:
             bs2 = simulate(c, "Sim_Syncer.cfg", 750 if thorough else 100, 60, "sim")
             run_harness(c, cfg_params("Sim_Syncer.cfg"), bs2, "sim")
+        # 3b. p2p side: the response receivers
+        if not c.violations:
+            vlib.log("[c17] receivers t=%.0fs" % (time.time() - c.t0))
+            recv_check(c)
         # 4. end-to-end against real chain services (real anchor constants, real findAncestor, real AddBlock/reorg)
         if not c.violations:
             run_e2e(c, e2e_scenarios(c.tier, rng))
